@@ -16,12 +16,12 @@ import (
 )
 
 type Clause struct {
-	Kind  string // requires ensures invariant assert assume ...
-	Label string
-	Text  string
-	Expr  ast.Expr
-	File  string
-	Line  int
+	Kind         string // requires ensures invariant assert assume ...
+	Label        string
+	Text         string
+	Expr         ast.Expr
+	File         string
+	Line         int
 	ThoroughOnly bool // checked only in the thorough tier (slow solver query)
 }
 
@@ -67,11 +67,11 @@ type SpecFn struct {
 type SpecParam struct{ Name, Type string }
 
 type Contract struct {
-	PkgPath  string // import path of the package (or "" for stdlib.assumed)
-	Key      string // "Name" | "(*T).Name" | "(T).Name" ; for assumed externals the full name
-	Props    []string
+	PkgPath string // import path of the package (or "" for stdlib.assumed)
+	Key     string // "Name" | "(*T).Name" | "(T).Name" ; for assumed externals the full name
+	Props   []string
 	// View: "" for the primary contract; "name" for `func F @name`
-	View string
+	View     string
 	Mode     Mode
 	ModeSet  bool
 	Requires []*Clause
@@ -79,10 +79,10 @@ type Contract struct {
 	// (`ghostinit ghost(k,"n") == c && ...`): assumed at entry, NOT an
 	// obligation of callers; callers see the named ghosts as written.
 	GhostInit []*Clause
-	Ensures  []*Clause
-	Safe     bool
-	Pure     bool
-	Modifies []string
+	Ensures   []*Clause
+	Safe      bool
+	Pure      bool
+	Modifies  []string
 	Preserves []string
 	// PrivateCaptures (closures): the variables captured by reference are
 	// written only by this closure while it runs (calls made by the closure do
@@ -118,14 +118,14 @@ type Contract struct {
 	// Bounded stand-in (never counted as proved): an exhaustive test of the
 	// real function up to a stated bound, injected with `go test -overlay`.
 	Bounded *BoundedSpec
-	Assumed  bool
-	Lemma    bool
-	NonNil   bool // externals: result is non-nil
-	Loops    map[int]*LoopSpec
-	Sites    []*SiteSpec
-	Notes    []string
-	File     string
-	Line     int
+	Assumed bool
+	Lemma   bool
+	NonNil  bool // externals: result is non-nil
+	Loops   map[int]*LoopSpec
+	Sites   []*SiteSpec
+	Notes   []string
+	File    string
+	Line    int
 }
 
 type ContractFile struct {
@@ -138,6 +138,7 @@ type ContractFile struct {
 }
 
 var kwRe = regexp.MustCompile(`^(func|props|mode|requires|ghostinit|ensures_thorough|ensures|safe|pure|bounded|privatecaptures|privateparam|abstractfloatdiv|recvinv|establishes|assumecalleerequires|modifies|preserves|assumed|lemma|nonnil|loop|invariant|unroll|decreases|site|assert|assume|hint|ghostset|ghostdecl|spec|note|end)\b`)
+
 // every element of a ghost sequence starts at a constant: forallkey(s, T, ghostat(obj, f(s), "name") == c)
 var ghostInitAllRe = regexp.MustCompile(`^forallkey\(\w+,\s*[\w.]+,\s*ghostat\(.*,\s*"[A-Za-z0-9_]+"\)\s*==\s*-?[0-9]+\)$`)
 var ghostInitRe = regexp.MustCompile(`^ghost\([A-Za-z0-9_.]+,\s*"[A-Za-z0-9_]+"\)\s*==\s*-?[0-9]+$`)
